@@ -245,7 +245,8 @@ def bounded(rep: Report, tier: str, seed: int) -> None:
 
             cli(base + ['-o', str(o1)], 'one-step')
             cli(['--asm'] + base + ['-o', str(o2)], 'asm')
-            cli(['--run', str(o2), '-s'], 'two-step')
+            if not outs['asm'].startswith(('EXIT', 'EXC')):
+                cli(['--run', str(o2), '-s'], 'two-step')  # (a user whose --asm step failed has nothing to run)
             version = C.FJMVersion(ver) if ver is not None else C.FJMVersion.CompressedVersion
             api_out = None
             try:
@@ -266,7 +267,7 @@ def bounded(rep: Report, tier: str, seed: int) -> None:
                 why = 'the API .fjm differs from the command line .fjm'
             elif outs.get('one-step') != (outs.get('asm', '') + outs.get('two-step', '')):
                 why = f'output differs: one-step {outs.get("one-step")!r}, two-step {outs.get("asm", "") + outs.get("two-step", "")!r}'
-            elif api_out is not None and not str(api_out).startswith('EXC') and api_out != outs.get('two-step'):
+            elif api_out is not None and not str(api_out).startswith('EXC') and 'two-step' in outs and api_out != outs.get('two-step'):
                 why = f'program output differs: API {api_out!r}, command line {outs.get("two-step")!r}'
             elif str(api_out).startswith('EXC') != str(outs.get('one-step')).startswith(('EXC', 'EXIT')):
                 why = f'one route fails where the other succeeds: API {api_out!r}, command line {outs.get("one-step")!r}'
